@@ -164,3 +164,48 @@ def find_all(n, kind):
     return [x for x in walk(n) if x.get('kind') == kind]
 
 
+
+
+def stmts_to_expr(tr, stmts):
+    """statement lists made of `if (c) S [else S]` and `return e` -> one Gallina boolean expression.
+    tr: a Tr for the conditions and returned expressions"""
+    if not stmts:
+        raise Untranslatable('control reaches the end without return')
+    s = stmts[0]
+    rest = stmts[1:]
+    k = s.get('kind')
+    if k == 'CompoundStmt':
+        return stmts_to_expr(tr, kids(s) + rest)
+    if k == 'ReturnStmt':
+        ks = kids(s)
+        if len(ks) != 1:
+            raise Untranslatable('return without value')
+        return tr.expr(ks[0])
+    if k == 'IfStmt':
+        ks = kids(s)
+        cond = tr.expr(ks[0])
+        then = stmts_to_expr(tr, [ks[1]] + rest)
+        els = stmts_to_expr(tr, ([ks[2]] if len(ks) > 2 else []) + rest)
+        return '(if %s then %s else %s)' % (cond, then, els)
+    raise Untranslatable('statement kind %s' % k)
+
+
+def call_name(n):
+    """name of the callee of a (member) call expression, or None"""
+    n = strip(n)
+    if n.get('kind') in ('CXXMemberCallExpr', 'CallExpr', 'CXXOperatorCallExpr'):
+        ks = kids(n)
+        if ks:
+            c = strip(ks[0])
+            return member_name(c)
+    return None
+
+
+def reads_in_order(n, names):
+    """left-to-right order in which the named members / callees occur in an expression tree"""
+    out = []
+    for x in walk(n):
+        nm = member_name(x)
+        if nm in names and (not out or out[-1] != nm):
+            out.append(nm)
+    return out
